@@ -216,6 +216,12 @@ func (c *Checker) chunksOf(evs []pathint.Event, w string, s *Source) []Chunk {
 	return out
 }
 
+// Div8 reports whether every coefficient of f is a multiple of 8.
+func Div8(f lin.Form) bool { return div8(f) }
+
+// ScaleDown8 divides f by 8.
+func ScaleDown8(f lin.Form) lin.Form { return scaleDown8(f) }
+
 func div8(f lin.Form) bool {
 	if f.C%8 != 0 {
 		return false
@@ -248,13 +254,14 @@ type FieldResult struct {
 
 // Composition is the result of composing one source with a parser summary.
 type Composition struct {
-	Source     *Source
-	Outcomes   int // feasible parser outcomes
-	Fields     []FieldResult
-	Assumed    []string
-	Problems   []string
-	Consumed   lin.Form // bytes the parser consumed
-	ConsumedOK bool
+	Source      *Source
+	Outcomes    int // feasible parser outcomes
+	Fields      []FieldResult
+	Assumed     []string
+	Problems    []string
+	Consumed    lin.Form // bytes the parser consumed
+	ConsumedOK  bool
+	ConsumedBad []string
 }
 
 type composer struct {
@@ -272,6 +279,7 @@ type composer struct {
 	fetchSyms map[string]bool
 	doneFact  []bool
 	doneNE    []bool
+	guided    bool // values are already expressed over the source (oracle run)
 	dirty     bool // the state has assumptions beyond the source's own facts
 	cache     map[string]cached
 }
@@ -429,6 +437,9 @@ func (k *composer) linOfVec(v bitdom.Vec) (lin.Form, bool) {
 			j++
 		}
 		run := j - i
+		if k.src.Emitted[bitdom.Atom{Src: a.Src, Bit: run}] {
+			return lin.Form{}, false // a bit of the symbol that is in the stream is not part of the value
+		}
 		hi := ip.Hi(a.Src)
 		if lo := ip.Lo(a.Src); lo < 0 || hi >= lin.PosInf || bitLen64(hi) > run {
 			// the symbol may have bits above the run: they are cut off
@@ -846,9 +857,17 @@ func (c *Checker) Compose(src *Source, parser *ssa.Function, sum *pathint.Summar
 		if rt != nil && len(po.Results) > 0 {
 			k.compare(res, rt, po.Results[0], root, rootPtr, "", cond, opts)
 		}
-		// consumption
+		// consumption (judged under this outcome's own assumptions)
 		if cv, ok := po.Mem[it+".#cur"]; ok && cv.K == pathint.KInt {
 			res.Consumed, res.ConsumedOK = c.IP.SimplifyForm(k.tr(cv.F), k.st), true
+			if opts.Consumed != nil {
+				d := c.IP.SimplifyForm(res.Consumed.Sub(*opts.Consumed), k.st)
+				if !(d.IsConst() && d.C == 0) && !(k.st.ProveSimplified(d) && k.st.ProveSimplified(d.Scale(-1))) {
+					res.ConsumedBad = append(res.ConsumedBad, fmt.Sprintf("the parser consumes %s bytes, %s were written%s", res.Consumed, opts.Consumed, cond))
+				}
+			}
+		} else if opts.Consumed != nil {
+			res.ConsumedBad = append(res.ConsumedBad, "the parser's final cursor is unknown"+cond)
 		}
 		for a := range k.assumed {
 			res.Assumed = append(res.Assumed, a)
@@ -891,6 +910,8 @@ type ComposeOpts struct {
 	// when the field is exempt (reason in Why).
 	Computed map[string]*lin.Form
 	Why      map[string]string
+	// Consumed: the number of bytes the parser is expected to consume (nil: not checked).
+	Consumed *lin.Form
 }
 
 // compare walks the parsed structure type and compares every leaf with the written structure's field.
@@ -1001,6 +1022,12 @@ func (k *composer) absent(res *Composition, t types.Type, exp string, expPtr boo
 		f := st.Field(i)
 		name := fieldName(exp, expPtr, f.Name())
 		p := joinKey(path, f.Name())
+		if pt, ok := f.Type().Underlying().(*types.Pointer); ok {
+			if _, isStruct := pt.Elem().Underlying().(*types.Struct); isStruct {
+				k.absent(res, pt.Elem(), name, true, p, cond, opts)
+				continue
+			}
+		}
 		if k.transmitted(name) {
 			res.Fields = append(res.Fields, FieldResult{Path: p, Detail: "written to the stream but the parser leaves the enclosing pointer nil" + cond})
 		} else {
@@ -1050,11 +1077,21 @@ func (k *composer) leaf(res *Composition, t types.Type, pv pathint.Val, exp stri
 			got = k.applyPreds(bitdom.Vec{pathint.CondBit(pv.B)})[0]
 		}
 		want := k.applyPreds(bitdom.Vec{bitdom.AtomForm(pathint.PredAtom(exp))})[0]
+		if got.Top && pv.B != nil {
+			// a condition on values: decide it under the source's facts
+			switch k.decideCond(pv.B) {
+			case pathint.Yes:
+				got = bitdom.One()
+			case pathint.No:
+				got = bitdom.Zero()
+			}
+		}
 		if got.Equal(want) {
 			res.Fields = append(res.Fields, FieldResult{Path: path, OK: true, Detail: got.String()})
 			return
 		}
-		if !k.transmitted(exp) {
+		_, wantDecided := want.IsConst()
+		if !k.transmitted(exp) && !wantDecided {
 			if v, isC := got.IsConst(); isC && !v {
 				res.Fields = append(res.Fields, FieldResult{Path: path, OK: true, Skip: true, Detail: "not transmitted"})
 				return
@@ -1070,6 +1107,10 @@ func (k *composer) leaf(res *Composition, t types.Type, pv pathint.Val, exp stri
 		}
 		if !k.transmitted(exp) {
 			if v, isC := got.IsConst(); isC && v == 0 {
+				res.Fields = append(res.Fields, FieldResult{Path: path, OK: true, Skip: true, Detail: "not transmitted"})
+				return
+			}
+			if gl := k.c.IP.SimplifyForm(k.tr(pv.F), k.st); gl.IsConst() && gl.C == 0 {
 				res.Fields = append(res.Fields, FieldResult{Path: path, OK: true, Skip: true, Detail: "not transmitted"})
 				return
 			}
@@ -1110,7 +1151,11 @@ func (k *composer) leaf(res *Composition, t types.Type, pv pathint.Val, exp stri
 		res.Fields = append(res.Fields, FieldResult{Path: path, Detail: fmt.Sprintf("parsed value differs from the written field: %s (parsed bits %s)%s", bad, vecMSB(got, w), cond)})
 	case pv.K == pathint.KSlice:
 		if pv.S != nil && pv.S.Event != "" {
-			if b, ok := k.blobs[pv.S.Event]; ok {
+			b, ok := k.blobs[pv.S.Event]
+			if pv.S.Blob != "" {
+				b, ok = pv.S.Blob, true
+			}
+			if ok {
 				if b == exp {
 					res.Fields = append(res.Fields, FieldResult{Path: path, OK: true, Detail: "bytes " + b})
 				} else {
@@ -1131,6 +1176,34 @@ func (k *composer) leaf(res *Composition, t types.Type, pv pathint.Val, exp stri
 		}
 		res.Fields = append(res.Fields, FieldResult{Path: path, Detail: "field of unsupported kind is transmitted" + cond})
 	}
+}
+
+// decideCond decides a parser-side condition under the source's facts.
+func (k *composer) decideCond(c *pathint.Cond) pathint.Tri {
+	switch c.Op {
+	case pathint.CConst:
+		if c.V {
+			return pathint.Yes
+		}
+		return pathint.No
+	case pathint.CGE, pathint.CEQ:
+		return k.st.Decide(&pathint.Cond{Op: c.Op, F: k.c.IP.SimplifyForm(k.tr(c.F), k.st)})
+	case pathint.CNot:
+		switch k.decideCond(c.X) {
+		case pathint.Yes:
+			return pathint.No
+		case pathint.No:
+			return pathint.Yes
+		}
+	case pathint.CPred:
+		if v, ok := k.st.Pred(c.Key); ok {
+			if v {
+				return pathint.Yes
+			}
+			return pathint.No
+		}
+	}
+	return pathint.Maybe
 }
 
 func (k *composer) zeroLen(exp string) bool {
